@@ -49,7 +49,7 @@ def run(c):
               expect=["SteerAway"], invariants=["SteerAway"])
     c.cov["exhaustive"] = True
     # ---- 2. generation -> replay
-    nrep, steps, nontriv, outcomes = 0, 0, set(), {}
+    nrep, steps, nontriv, outcomes, spec_outcomes = 0, 0, set(), {}, {}
     gens = [
         dict(name="gen_B", cfg=cfg, depth=depth - 1, exp_choices=(6, 9), report_set=(1, 2, 4, 5, 6), horizon=12, max_adv=3),
         dict(name="gen_B_decay", cfg=dict(cfg, interval=40, idle=60), depth=depth - 1, exp_choices=(60,), report_set=(1, 2), horizon=40, adv_set=(1, 2, 3, 9, 30)),
@@ -65,10 +65,14 @@ def run(c):
                                                      "conform": st["conform"], "tie_breaks": st["ties"], "drift": st["drift"]})
         for k, v in st["outcomes"].items():
             outcomes[k] = outcomes.get(k, 0) + v
-    for need in ("send:path", "tick:done", "report:accepted", "report:dup", "ingest:handled", "ingest:lagged", "adv:"):
-        if not outcomes.get(need):
-            c.fail_tool("vacuous replay: outcome class %s never observed on the real path set" % need)
+        for k, v in st["spec_outcomes"].items():
+            spec_outcomes[k] = spec_outcomes.get(k, 0) + v
+    # vacuity is judged on the GENERATOR side (outcome classes the spec predicts), never on what the code under test did
+    for need in ("send:path", "tick:ok", "report:accepted", "report:dup", "ingest:handled", "ingest:lagged", "adv:"):
+        if not spec_outcomes.get(need):
+            c.fail_tool("vacuous generation: outcome class %s never predicted by the spec in the replayed histories" % need)
     c.cov["replayed"] = nrep
+    c.cov["real_outcome_classes"] = outcomes
     c.cov["evaluations"] = steps
     c.cov["distinct_nontrivial"] = len(nontriv)
     # ---- 3. record -> P-monitors + trace validation
